@@ -127,7 +127,7 @@ def main(argv=None):
             meta[rid] = {"tool": tool, "argv": " ".join(full), "seed": s, "kind": "cli"}
             for k in range(nruns):
                 jobs.append((rid, k, code, ambient(wd, k, ck.rng), os.path.join(wd, "%s_%d.trace" % (rid, k))))
-    libs = ["RandomKCNF", "RandomKXOR", "RandomKCNF_planted", "left_regular", "regular", "m_edges_sparse", "m_edges_dense",
+    libs = ["RandomKCNF", "RandomKXOR", "RandomKCNF_planted", "RandomKCNF_dense", "RandomKCNF_dense_b", "RandomKXOR_dense", "left_regular", "regular", "m_edges_sparse", "m_edges_dense",
             "bipartite_random", "split_random_edges", "add_random_missing_edges"]
     for name in libs:
         for s in seeds[:3]:
